@@ -130,6 +130,16 @@ impl<const N: usize> Ex<N> {
         }
     }
 
+    /// Class of the fault family that is (or was, earlier in this run) injected; 0 if none.
+    pub fn family_class(&self) -> u32 {
+        match self.faulted.or(self.run_family) {
+            Some(FaultFamily::Drop) => cls::DROP_FAULT,
+            Some(FaultFamily::User) => cls::USER_FAULT,
+            Some(FaultFamily::Forget) => cls::FORGET,
+            None => 0,
+        }
+    }
+
     fn pending_hook_classes(&self) -> u32 {
         let v: Vec<Viol> = H.with(|h| h.try_borrow().map(|h| h.viol.iter().map(|x| x.0).collect()).unwrap_or_default());
         let fam = self.faulted.or(self.run_family);
@@ -209,7 +219,10 @@ impl<const N: usize> Ex<N> {
                 if expect_panic {
                     self.stats.doc_panics += 1;
                 } else {
-                    self.fail(cls::PANIC_SPEC | own, format!("unexpected panic: {m}"));
+                    // after an earlier fault in this run the property of that fault family also
+                    // says "the buffer behaves normally afterwards"
+                    let fam = self.family_class();
+                    self.fail(cls::PANIC_SPEC | own | fam, format!("unexpected panic: {m}"));
                 }
                 None
             }
